@@ -21,6 +21,9 @@ type Need struct {
 	Edge    func(*ssa.BasicBlock, int) bool
 	// Kill overrides the Guard's common kill predicate for this need
 	Kill func(ssa.Instruction) bool
+	// SuccessOf: the calls whose success edges Edge was built from (okOf); lets a `return f(x)`
+	// that forwards such a call's error count as "after success of f"
+	SuccessOf []ssa.Instruction
 }
 
 // lockOrUnlock: any acquisition or release of a sync mutex.  Used as the kill predicate for
@@ -134,6 +137,48 @@ func (c *Ctx) Guard(rule string, fn *ssa.Function, sites []ssa.Instruction, site
 			}
 			ws := q.Run()
 			where := c.P.InstrPos(site)
+			// a return that hands back the very error of a call reports success exactly when that
+			// call succeeded: `return f(x)` satisfies "after success of f" / "f(x) err == nil"
+			if len(ws) > 0 {
+				if rr, ok := site.(*ssa.Return); ok {
+					if ei := errResultIndex(fn); ei >= 0 && ei < len(rr.Results) {
+						ev := strip(rr.Results[ei])
+						var call ssa.Instruction
+						switch x := ev.(type) {
+						case *ssa.Extract:
+							if cl, ok := x.Tuple.(*ssa.Call); ok && errOfCall(cl) == ssa.Value(x) {
+								call = cl
+							}
+						case *ssa.Call:
+							if errOfCall(x) == ssa.Value(x) {
+								call = x
+							}
+						}
+						if call != nil {
+							pass := false
+							want := isNilAtom(R.V(ev))
+							for _, a := range nd.Atoms {
+								if a == want {
+									pass = true
+								}
+							}
+							for _, n := range nd.OkCalls {
+								if callMatches(call, n) {
+									pass = true
+								}
+							}
+							for _, sc := range nd.SuccessOf {
+								if sc == call {
+									pass = true
+								}
+							}
+							if pass {
+								ws = nil
+							}
+						}
+					}
+				}
+			}
 			if len(ws) == 0 {
 				c.OK(rule, key, where, "site is cut off from entry by: "+nd.describe(), true)
 			} else {
